@@ -376,11 +376,25 @@ def gen_reject_case(rng, tier):
     return {"kind": "reject", "present": present, "dict": d}
 
 
-def generate(rng, tier):
-    nf, nl, nr = (120, 180, 100) if tier == "quick" else (4000, 5000, 2500)
+REQUIRED_SEED = 1      # a constant, independent of VERIF_SEED and of the tier (sanity() holds on this stream)
+
+
+def _stream(rng, tier, nf, nl, nr):
     cases = [gen_frame_case(rng, tier, k) for k in range(nf)]
     cases += [gen_lazy_case(rng, tier) for _ in range(nl)]
     cases += [gen_reject_case(rng, tier) for _ in range(nr)]
+    return cases
+
+
+def required_cases():
+    """The deterministic stream every requirement of sanity() is judged on: own constant seed, the same in
+    both tiers and under every VERIF_SEED (the run's seed only drives the additional random stream)."""
+    return [dict(c, required=True) for c in _stream(C.Rng(REQUIRED_SEED), "quick", 100, 150, 80)]
+
+
+def generate(rng, tier):
+    nf, nl, nr = (35, 50, 30) if tier == "quick" else (4000, 5000, 2500)
+    cases = required_cases() + _stream(rng, tier, nf, nl, nr)
     if tier == "thorough":
         cases += exhaustive_lazy()
     return cases
@@ -1264,6 +1278,9 @@ def stats(cases, obss):
 def sanity(cases, obss):
     """Fail-closed distribution check: every case kind, every encoder class, every batch kind, rejecting and
     non-rejecting lazy sequences and both rejection outcomes must be drawn; failing frames stay a minority."""
+    # judged on the deterministic required stream alone (seed-independent by construction)
+    req = [(c, o) for c, o in zip(cases, obss) if c is not None and c.get("required")]
+    cases, obss = [c for c, _ in req], [o for _, o in req]
     d = stats(cases, obss)
     probs = []
     for k in ("frame", "lazy", "reject"):
